@@ -245,6 +245,16 @@ func (env *ExecEnv) expandParam(fields []*field, pe *ast.ParamExp, mode ExpMode)
 		switch len(env.Args) {
 		case 1:
 			null = true
+			if quote {
+				// "$@" generates zero fields when there are no positional
+				// parameters: drop the empty quoted part that marks the
+				// enclosing double-quotes
+				f := fields[len(fields)-1]
+				if n := len(f.b); n > 0 && f.quote[n-1] && f.b[n-1] == "" {
+					f.b = f.b[:n-1]
+					f.quote = f.quote[:n-1]
+				}
+			}
 		case 2:
 			null = env.Args[1] == ""
 			fallthrough
